@@ -28,6 +28,26 @@ def debit_after_send(cx, inst, b, sends, credit_rx, bytes_of):
         cx.followed_by(inst, b, [(loc, lab)], deb, "send without flush_alloc debit", "flush_alloc -= len(bytes sent)")
 
 
+def inst_credit_refill(cx, iid):
+    R = cx.R
+    with cx.instance(iid, "T7 SHAPE", "fill_flush_alloc: flush_alloc = min(saturating_add(flush_alloc, round(rate*dt)), round(rate*rtt))", floor=1) as inst:
+        b = R.body(HC + "fill_flush_alloc")
+        ws = [(l, node) for l, node, ps in b.field_writes(r"arg1\.flush_alloc")]
+        want = "Ord::min(f64::round(Option::unwrap_or(SendRateComp::rtt_s(arg1.send_rate_comp),0)*SendRateComp::send_rate(arg1.send_rate_comp)),isize::saturating_add(arg1.flush_alloc,f64::round(Duration::as_secs_f64(Instant::sub(arg2,arg1.time_last_flushed@Some.0))*SendRateComp::send_rate(arg1.send_rate_comp))))"
+        for l, node in ws:
+            from rules import canon_value
+            got = acnf(canon_value(cx, b, b.rvalue_expr(node["rv"])))
+            inst.site(b, l, "flush_alloc = " + got[:100])
+            if got != want:
+                inst.violation(b.path, "flush_alloc refill", "credit refill is `%s`, expected `%s`" % (got, want), at=b.span_at(l))
+        if len(ws) != 1:
+            inst.violation(b.path, "flush_alloc refill", "expected exactly one refill write, found %d" % len(ws))
+        st = R.body(HC + "step")
+        if not call_sites(st, "HalfConnection::fill_flush_alloc"):
+            inst.violation(st.path, "fill_flush_alloc", "step() no longer refills the credit")
+
+
+
 def run(cx):
     R = cx.R
     with cx.instance("C13.a", "T2 PAIR", "every FrameSink::send of a connection and both emitters' finalize debit flush_alloc by the length sent", floor=5) as inst:
@@ -137,22 +157,7 @@ def run(cx):
                 if not fresh:
                     inst.violation(eb.path, ctor, "%s is not given the connection's current flush_alloc (read after the preceding emitter has spent its share)" % ctor, at=eb.span_at(loc))
 
-    with cx.instance("C13.c", "T7 SHAPE", "fill_flush_alloc: flush_alloc = min(saturating_add(flush_alloc, round(rate*dt)), round(rate*rtt))", floor=1) as inst:
-        b = R.body(HC + "fill_flush_alloc")
-        ws = [(l, node) for l, node, ps in b.field_writes(r"arg1\.flush_alloc")]
-        want = "Ord::min(f64::round(Option::unwrap_or(SendRateComp::rtt_s(arg1.send_rate_comp),0)*SendRateComp::send_rate(arg1.send_rate_comp)),isize::saturating_add(arg1.flush_alloc,f64::round(Duration::as_secs_f64(Instant::sub(arg2,arg1.time_last_flushed@Some.0))*SendRateComp::send_rate(arg1.send_rate_comp))))"
-        for l, node in ws:
-            from rules import canon_value
-            got = acnf(canon_value(cx, b, b.rvalue_expr(node["rv"])))
-            inst.site(b, l, "flush_alloc = " + got[:100])
-            if got != want:
-                inst.violation(b.path, "flush_alloc refill", "credit refill is `%s`, expected `%s`" % (got, want), at=b.span_at(l))
-        if len(ws) != 1:
-            inst.violation(b.path, "flush_alloc refill", "expected exactly one refill write, found %d" % len(ws))
-        st = R.body(HC + "step")
-        if not call_sites(st, "HalfConnection::fill_flush_alloc"):
-            inst.violation(st.path, "fill_flush_alloc", "step() no longer refills the credit")
-
+    inst_credit_refill(cx, "C13.c")
     with cx.instance("C13.e", "T3 WHO-MAY", "the flush credit is only ever refilled by fill_flush_alloc, debited by the length sent, or handed over by an emitter", floor=4) as inst:
         ok_forms = [
             r"sub\(arg1\.flush_alloc,cast<isize>\(\[T\]::len\(.*\)\)\)",
@@ -245,6 +250,8 @@ def ceiling_clamp(cx, iid):
     # the ceiling is computed from the endpoint's stored config: it must be the application's
     from props.shared import config_verbatim
     config_verbatim(cx, "C13.i")
+    from props.shared import ctor_initial_state
+    ctor_initial_state(cx, "C13.j")
 
 
 SELFTEST = [
